@@ -116,7 +116,10 @@ def overlap_arrays(
         [np.array(offset) + a.shape for offset, a in zip(offsets, arrays)], axis=0
     )
 
-    overlap = np.full(new_shape, fill, dtype=arrays[0].dtype)
+    # sums start from zero, the fill is applied to unvisited values afterwards
+    overlap = np.full(
+        new_shape, fill if mode == "replace" else 0, dtype=arrays[0].dtype
+    )
     visits = np.zeros(new_shape, dtype=int)  # Track idx for mean calc
     for i, (offset, array) in enumerate(zip(offsets, arrays)):
         slice_idx = tuple(slice(o, o + s) for o, s in zip(offset, array.shape))
@@ -127,6 +130,8 @@ def overlap_arrays(
             overlap[slice_idx] = np.nansum([overlap[slice_idx], array], axis=0)
         visits[slice_idx][~np.isnan(array)] += 1
 
+    if mode == "mean" or mode == "sum":
+        overlap[visits == 0] = fill
     if mode == "mean":
         overlap[visits > 1] /= visits[visits > 1]
 
